@@ -70,6 +70,10 @@ class Prog:
 
     def __init__(self, tag, regime):
         self.tag, self.regime, self.stmts = tag, regime, []
+        self.directives = []      # (position = number of statements before it, "RD"|"DF", register)
+
+    def directive(self, what, reg):
+        self.directives.append((len(self.stmts), what, reg))
 
     def add(self, *st):
         self.stmts.append(st)
@@ -98,7 +102,14 @@ class Prog:
                 out.append("%s %d %s" % (k, st[1], " ".join(f2hexfloat(v) for v in st[2:])))
             elif k == "W":
                 out.append("W %d %d %s %s" % (st[1], st[2], f2hexfloat(st[3]), f2hexfloat(st[4])))
-        return " ; ".join(out)
+        merged = []
+        for pos in range(len(out) + 1):
+            for (dp, what, reg) in self.directives:
+                if dp == pos:
+                    merged.append("%s %d" % (what, reg))
+            if pos < len(out):
+                merged.append(out[pos])
+        return " ; ".join(merged)
 
     def deps(self, k):
         st = self.stmts[k]
@@ -131,6 +142,9 @@ class Prog:
                 q.add(st[0], ren[st[1]], *st[2:])
             else:
                 q.add(*st)
+            for (dp, what, reg) in self.directives:
+                if dp == old + 1 and what == "RD" and reg in ren and ren[reg] < len(q.stmts):
+                    q.directive("RD", ren[reg])
         return q, ren[k]
 
     def replay(self):
@@ -224,6 +238,57 @@ def gen_lattice(rng, cx):
                 regs.append(p.add("TR", rng.choice(regs), float(rng.randint(-3, 3)), float(rng.randint(-3, 3))))
         progs.append(p)
     progs += gen_history(rng, cx)
+    progs += gen_lazy(rng, cx)
+    return progs
+
+
+def lattice_transform(rng, p, i):
+    """a lattice-preserving transform statement on register i (left PENDING by the harness until first use)"""
+    r = rng.randrange(6)
+    if r == 0:
+        return p.add("TR", i, float(rng.randint(-4, 4)), float(rng.choice([-3, -1, 2, 5])))
+    if r == 1:
+        return p.add("RO", i, float(rng.choice([90, 180, 270])))
+    if r == 2:
+        return p.add("SC", i, float(rng.choice([2, -1, 1, -2])), float(rng.choice([1, 2, -1])))
+    if r == 3:
+        return p.add("MI", i, *rng.choice([(1.0, 0.0), (0.0, 1.0)]))
+    if r == 4:   # integer matrices, including orientation reversing ones and a shear
+        a, b, c, d = rng.choice([(1, 0, 1, 1), (0, 1, 1, 0), (2, 0, 0, 1), (1, 1, 0, 1), (0, -1, 1, 0), (-1, 0, 0, 1)])
+        return p.add("TF", i, float(a), float(b), float(c), float(d), float(rng.randint(-2, 2)), float(rng.randint(-2, 2)))
+    j = p.add("TR", i, float(rng.randint(-3, 3)), float(rng.randint(-3, 3)))     # two stacked pending transforms
+    return p.add("RO", j, 90.0)
+
+
+def gen_lazy(rng, cx):
+    """operations applied DIRECTLY to an object with a pending lazy transform (and, for contrast, after a read):
+    lattice-preserving warps keep the exact pixel oracle; DF runs the lazy-vs-eager differential of the whole API"""
+    progs = []
+    for t in range(cx.pick(45, 450)):
+        p = Prog("lazy", "lattice")
+        ox, oy = rng.randint(-2, 3), rng.randint(-2, 3)
+        if rng.random() < 0.5:
+            base = p.add("R", float(ox), float(oy), float(ox + rng.randint(1, 4)), float(oy + rng.randint(1, 4)))
+        else:
+            base = p.add("P", 0, [histogram(rng, rng.randint(2, 4), 3, ox, oy)])
+        if rng.random() < 0.3:       # the object under test is itself a Boolean result
+            other = p.add("R", float(ox + 1), float(oy - 1), float(ox + 3), float(oy + 2))
+            base = p.add("B", rng.randint(0, 2), base, other)
+        tr = lattice_transform(rng, p, base)
+        mode = t % 3
+        if mode == 1:
+            p.directive("RD", tr)                    # read first: the transform is materialised before the warp
+        if mode == 2 or rng.random() < 0.25:
+            p.directive("DF", tr)                    # differential works on copies: tr stays pending
+        kind = rng.choice([5, 5, 6, 7, 8, 8, 9, 10])
+        p1, p2 = (float(rng.randint(-3, 3)), float(rng.randint(-3, 3))) if kind == 5 else (float(rng.choice([1, 2, -1])), 0.0)
+        w = p.add("W", tr, kind, p1, p2)
+        tr2 = lattice_transform(rng, p, w)           # a pending transform of the warp result, consumed by a Boolean
+        u = p.add("R", -1.0, -1.0, 2.0, 3.0)
+        p.add("B", rng.randint(0, 2), tr2, u)
+        tr3 = lattice_transform(rng, p, base)
+        p.add("BB", rng.randint(0, 2), [tr3, u, lattice_transform(rng, p, base)])
+        progs.append(p)
     return progs
 
 
@@ -425,12 +490,21 @@ def gen_generic(rng, cx):
                     regs.append(p.add("SC", rng.choice(regs), rng.choice([2.0, 0.5, -1.0, 1.5]), rng.choice([1.0, 2.0, -1.0, 0.75])))
                 else:
                     regs.append(p.add("MI", rng.choice(regs), rng.choice([1.0, 0.0, 1.0]), rng.choice([0.0, 1.0, 1.0])))
+                if p.stmts[-1][0] in ("TR", "RO", "SC", "MI") and rng.random() < 0.4:
+                    p.directive("DF", regs[-1])
         elif fam == 5:   # warps (self-intersection, folds, grid snapping) of regular shapes
             a = p.add("P", 0, [star(rng, rng.choice([6, 8, 12, 24]), 1, rng.uniform(2, 4), (rng.uniform(-1, 1), rng.uniform(-1, 1)), bits)])
             b = p.add("R", -3.0, -1.0, 3.0, 1.5)
             u = p.add("B", rng.randint(0, 1), a, b)
             kind = rng.randint(0, 4)
             p1 = {0: rng.uniform(-0.5, 0.5), 1: q(rng.uniform(-1, 1), 3), 2: rng.uniform(0.2, 1.2), 3: rng.uniform(0.2, 1.5), 4: rng.choice([0.5, 1.0, 0.25])}[kind]
+            if rng.random() < 0.6:   # a still-pending transform right before the warp
+                u = rng.choice([lambda: p.add("TR", u, q(rng.uniform(-2, 2), 6), q(rng.uniform(-2, 2), 6)),
+                                lambda: p.add("RO", u, rng.choice([30.0, 90.0, -45.0])),
+                                lambda: p.add("SC", u, rng.choice([2.0, 0.5, -1.0]), rng.choice([1.0, 1.5])),
+                                lambda: p.add("MI", u, 1.0, 1.0)])()
+                if rng.random() < 0.5:
+                    p.directive("DF", u)
             w = p.add("W", u, kind, p1, rng.uniform(1, 4))
             p.add("B", 2, w, a)
         elif fam == 7:   # random closed polylines on a tiny integer grid: exact coincidences, T-junctions, collinear overlaps, repeated vertices
@@ -519,6 +593,8 @@ def run_programs(cx, exe, progs, label):
                 i += 2 * n
                 polys.append(c)
             res.setdefault(cid, {})[reg] = {"eps": eps, "area": area, "area_bits": t[4], "polys": polys}
+        elif t[0] == "D":
+            res.setdefault(int(t[1]), {}).setdefault("diff", []).append((int(t[2]), t[3], int(t[4])))
         elif t[0] == "WI":
             cid, reg = int(t[1]), int(t[2])
             polys, i = [], 4
@@ -529,6 +605,23 @@ def run_programs(cx, exe, progs, label):
                 polys.append(c)
             res.setdefault(cid, {}).setdefault("warp", {})[reg] = polys
     return res
+
+
+def lattice_affine(st):
+    """integer / power-of-two matrix ((a,b),(c,d),(tx,ty)) meaning x' = a x + c y + tx, y' = b x + d y + ty, or None"""
+    k = st[0]
+    if k == "TR":
+        return ((1.0, 0.0), (0.0, 1.0), (st[2], st[3]))
+    if k == "SC" and st[2] != 0 and st[3] != 0:
+        return ((st[2], 0.0), (0.0, st[3]), (0.0, 0.0))
+    if k == "RO" and st[2] % 90 == 0:
+        c, s_ = {0: (1.0, 0.0), 90: (0.0, 1.0), 180: (-1.0, 0.0), 270: (0.0, -1.0)}[int(st[2]) % 360]
+        return ((c, s_), (-s_, c), (0.0, 0.0))
+    if k == "MI" and (st[2] == 0) != (st[3] == 0):
+        return ((-1.0, 0.0), (0.0, 1.0), (0.0, 0.0)) if st[3] == 0 else ((1.0, 0.0), (0.0, -1.0), (0.0, 0.0))
+    if k == "TF":
+        return ((st[2], st[3]), (st[4], st[5]), (st[6], st[7]))
+    return None
 
 
 def expr_of(prog, k, regs, warp):
@@ -556,12 +649,16 @@ def expr_of(prog, k, regs, warp):
         for r in rs[1:]:
             e = ("OR" if op == 0 else "AND", e, P(r))
         return e, "batch"
-    if st[0] == "TR" and prog.regime == "lattice":
-        i, tx, ty = st[1:4]
-        return ("POS", [[(x + tx, y + ty) for x, y in c] for c in regs[i]["polys"]]), "translate"
-    if st[0] == "SC" and prog.regime == "lattice" and st[2] > 0 and st[3] > 0:
-        i, fx, fy = st[1:4]       # power-of-two factors: exact
-        return ("POS", [[(x * fx, y * fy) for x, y in c] for c in regs[i]["polys"]]), "scale"
+    if st[0] in ("TR", "SC", "RO", "MI", "TF") and prog.regime == "lattice":
+        m = lattice_affine(st)
+        if m is not None:
+            (a, b), (c_, d), (tx, ty) = m      # small integers / powers of two: exact in doubles
+            det = a * d - b * c_
+            out = []
+            for c in regs[st[1]]["polys"]:
+                cc = [(a * x + c_ * y + tx, b * x + d * y + ty) for x, y in c]
+                out.append(cc[::-1] if det < 0 else cc)
+            return ("POS", out), ("translate" if st[0] == "TR" else "affine")
     if st[0] in ("ST", "SI") and prog.regime == "lattice":
         # the generator only uses tolerances below the smallest vertex deviation of the operand: same point set
         return ("POS", regs[st[1]]["polys"]), "simplify"
@@ -806,6 +903,20 @@ def judge(cx, progs, res, drv, rng, label, stats):
                 stats["lattice_exact"] += 1
                 if 0 < count:
                     stats["lattice_nontrivial"] += 1
+    # lazy-vs-eager differential of every public operation (harness statement DF)
+    for cid, prog in enumerate(progs):
+        for (reg, opname, eq) in res.get(cid, {}).get("diff", []):
+            # operations that stack a FURTHER transform on the pending one round once (composed matrix) instead of twice:
+            # bit-identical only where the arithmetic is exact (lattice regime)
+            if opname in ("TranslateThenRead", "BatchBoolean", "HullBatch") and prog.regime != "lattice":
+                continue
+            stats["differential_ops"] = stats.get("differential_ops", 0) + 1
+            if not eq:
+                sl, newk = prog.slice(reg)
+                sl.directive("DF", newk)
+                vx.violation("lazy-transform-differs-" + opname,
+                             "%s: %s on register %d with a pending (lazy) transform differs from the same operation on its eagerly materialised copy" % (prog.tag, opname, reg),
+                             dict(sl.replay(), register=newk, operation=opname))
     # operand-order independence (lattice regime): A op B vs B op A for union / intersection
     for cid, prog in enumerate(progs):
         if prog.regime != "lattice" or cid not in res:
@@ -934,7 +1045,8 @@ def run(cx):
                 "(lattice: non-empty result); programs are seeded, statements of a program are distinct by construction",
         "distribution": {"programs_lattice": len(lat), "programs_generic": len(gen), "by_kind": stats["kinds"], "comb_programs_over_1024_edges": big,
                          "sample_points": stats["points"], "sample_points_far_from_input_edges": stats["far_points"],
-                         "lattice_results_pixel_exact": stats["lattice_exact"], "history_programs": sum(1 for p in lat if p.tag == "history"), "order_independence_pairs": stats["order_pairs"]},
+                         "lattice_results_pixel_exact": stats["lattice_exact"], "history_programs": sum(1 for p in lat if p.tag == "history"), "lazy_transform_programs": sum(1 for p in lat if p.tag == "lazy"),
+                         "lazy_vs_eager_differential_ops": stats.get("differential_ops", 0), "order_independence_pairs": stats["order_pairs"]},
         "kernel_mismatches": kmis,
     })
     for p in (lat[0], gen[0], gen[2]):
